@@ -26,19 +26,31 @@ for it in range(N):
     idx = pd.bdate_range("2020-01-01", periods=n)
     data = pd.DataFrame(100 * np.exp(np.cumsum(rs.randn(n, len(TICK)) * 0.02, axis=0)), index=idx, columns=TICK)
     cfg = dict(nested=bool(rs.randint(2)), shared=bool(rs.randint(2)), trades=rs.rand() > 0.15, shorts=bool(rs.randint(2)), bidoffer=bool(rs.randint(2)), intpos=bool(rs.randint(2)),
-               mult=float(rs.choice([1.0, 1.0, 10.0, 0.5])), eager=bool(rs.randint(2)))
+               mult=float(rs.choice([1.0, 1.0, 10.0, 0.5])), eager=bool(rs.randint(2)), frac=bool(rs.randint(2)))
     wt = pd.DataFrame(rs.dirichlet(np.ones(3), size=n), index=idx, columns=list("abc"))
     if cfg["shorts"]:
         wt["a"] = -0.3; wt["b"] = 0.8; wt["c"] = 0.5
+    class Peek(A.Algo):
+        """reads the aggregated reports in the middle of a date, before that date's trades (as PTE_Rebalance does): what is read later must not be the copy made here"""
+        def __call__(self, target):
+            _ = target.root.positions; _ = target.root.outlays
+            return True
+    class FracTrade(A.Algo):
+        """quantity trades are never rounded, also in a tree flagged for whole units: a fractional lot on two dates"""
+        def __call__(self, target):
+            if target.now in (idx[3], idx[6]) and cols_of[target.name]: target.transact(2.5 if target.now == idx[3] else -0.75, cols_of[target.name][0])
+            return True
+    cols_of = {}
     def stack(cols):
         if not cfg["trades"]: return [A.RunOnDate("1999-01-01"), A.SelectAll(), A.WeighEqually(), A.Rebalance()]
-        return [A.RunWeekly(), A.SelectThese(cols), WeighSigned(wt), A.Rebalance()]
+        return [Peek(), A.Or([A.RunWeekly(), A.RunOnDate(idx[-1])]), A.SelectThese(cols), WeighSigned(wt), A.Rebalance()] + ([FracTrade()] if cfg.get("frac") else [])     # the last date trades too
     kinds = {nm: int(rs.randint(3)) for nm in TICK}
     def sec(nm):
         if not (cfg["eager"] or cfg["mult"] != 1.0): return nm
         if cfg["eager"] and kinds[nm] == 1: return bt.core.HedgeSecurity(nm, multiplier=cfg["mult"])
         if cfg["eager"] and kinds[nm] == 2: return FixedIncomeSecurity(nm, multiplier=cfg["mult"])
         return Security(nm, multiplier=cfg["mult"])
+    cols_of.update({"top": ["a"], "s1": ["a"], "s2": ["c"]})
     if cfg["nested"]:
         c2 = ["b", "c"] if cfg["shared"] else ["c", "d"]
         top = Strategy("top", [A.RunMonthly(run_on_first_date=True), A.SelectAll(), A.WeighEqually(), A.Rebalance()] if cfg["trades"] else stack(["a"]),
